@@ -32,7 +32,7 @@ ROOT = '/simfs'
 _real = {
     'stat': os.stat, 'lstat': os.lstat, 'listdir': os.listdir,
     'scandir': os.scandir, 'access': os.access, 'open': builtins.open,
-    'io_open': io.open,
+    'io_open': io.open, 'readlink': os.readlink,
 }
 
 _CUR = [None]
@@ -58,6 +58,7 @@ class SimFS:
         self.simtime = 0.0
         self.files = {}            # path -> [text, mtime, mode]
         self.dirs = {root: self.now}   # path -> mtime
+        self.links = {}            # path -> [target path, mtime]
         self.calls = 0
         self.by_kind = {}
         self.hook = None           # hook(kind, path) before each routed call
@@ -82,8 +83,24 @@ class SimFS:
         self.dirs[p] = self.now
         self.dirs[parent] = self.now
 
+    def symlink(self, p, target):
+        """p -> target (an absolute SimFS path of a file or directory)"""
+        parent = posixpath.dirname(p)
+        if parent not in self.dirs:
+            self.mkdir(parent)
+        self.links[p] = [target, self.now]
+        self.dirs[parent] = self.now
+
+    def _follow(self, p):
+        n = 0
+        while p in self.links and n < 8:
+            p = self.links[p][0]
+            n += 1
+        return p
+
     def write(self, p, text, mode=0o644):
-        """create, or rewrite in place"""
+        """create, or rewrite in place (through a symlink if p is one)"""
+        p = self._follow(p)
         if p in self.files:
             self.files[p][0] = text
             self.files[p][1] = self.now
@@ -100,24 +117,29 @@ class SimFS:
         if parent not in self.dirs:
             self.mkdir(parent)
         mode = self.files[p][2] if p in self.files else 0o644
+        self.links.pop(p, None)      # rename replaces the link itself
         self.files[p] = [text, self.now, mode]
         self.dirs[parent] = self.now
 
     def touch(self, p):
-        self.files[p][1] = self.now
+        self.files[self._follow(p)][1] = self.now
 
     def unlink(self, p):
-        del self.files[p]
+        if p in self.links:
+            del self.links[p]        # the target stays
+        else:
+            del self.files[p]
         self.dirs[posixpath.dirname(p)] = self.now
 
     def chmod(self, p, mode):
         self.files[p][2] = mode
 
     def exists(self, p):
+        p = self._follow(p)
         return p in self.files or p in self.dirs
 
     def read(self, p):
-        return self.files[p][0]
+        return self.files[self._follow(p)][0]
 
     def snapshot(self):
         return ({p: tuple(v) for p, v in self.files.items()}, dict(self.dirs))
@@ -138,7 +160,7 @@ class SimFS:
 
     def _names(self, d):
         n = sorted(posixpath.basename(x) for x in
-                   list(self.files) + list(self.dirs)
+                   list(self.files) + list(self.dirs) + list(self.links)
                    if x != d and posixpath.dirname(x) == d)
         if len(n) > 1:
             s = list(n)
@@ -148,8 +170,23 @@ class SimFS:
                 self.shuffled_listings += 1
         return n
 
+    def sys_lstat(self, p):
+        if p in self.links:
+            self._pre('lstat', p)
+            self._log('lstat', p, 'link')
+            return _mkstat(statmod.S_IFLNK | 0o777, self.links[p][1],
+                           len(self.links[p][0]))
+        return self.sys_stat(p)
+
+    def sys_readlink(self, p):
+        self._pre('readlink', p)
+        if p not in self.links:
+            raise OSError(errno.EINVAL, 'Invalid argument', p)
+        return self.links[p][0]
+
     def sys_stat(self, p):
         self._pre('stat', p)
+        p = self._follow(p)
         if p in self.files:
             f = self.files[p]
             r = _mkstat(statmod.S_IFREG | f[2], f[1], len(f[0]))
@@ -163,6 +200,7 @@ class SimFS:
 
     def sys_listdir(self, p):
         self._pre('listdir', p)
+        p = self._follow(p)
         if p in self.files:
             raise NotADirectoryError(errno.ENOTDIR, 'Not a directory', p)
         if p not in self.dirs:
@@ -175,6 +213,7 @@ class SimFS:
 
     def sys_scandir(self, p):
         self._pre('scandir', p)
+        p = self._follow(p)
         if p in self.files:
             raise NotADirectoryError(errno.ENOTDIR, 'Not a directory', p)
         if p not in self.dirs:
@@ -190,6 +229,7 @@ class SimFS:
         if any(c in mode for c in 'wax+'):
             raise PermissionError(errno.EROFS, 'SimFS is read-only for the '
                                   'system under test', p)
+        p = self._follow(p)
         if p in self.dirs:
             raise IsADirectoryError(errno.EISDIR, 'Is a directory', p)
         if p not in self.files:
@@ -207,6 +247,7 @@ class SimFS:
 
     def sys_access(self, p, mode):
         self._pre('access', p)
+        p = self._follow(p)
         if p in self.dirs:
             r = True
         elif p in self.files:
@@ -238,19 +279,23 @@ class _DirEntry:
         self.path = posixpath.join(d, n)
 
     def is_dir(self, follow_symlinks=True):
-        return self.path in self._fs.dirs
+        p = self._fs._follow(self.path) if follow_symlinks else self.path
+        return p in self._fs.dirs
 
     def is_file(self, follow_symlinks=True):
-        return self.path in self._fs.files
+        p = self._fs._follow(self.path) if follow_symlinks else self.path
+        return p in self._fs.files
 
     def is_symlink(self):
-        return False
+        return self.path in self._fs.links
 
     def is_junction(self):
         return False
 
     def stat(self, follow_symlinks=True):
-        return self._fs.sys_stat(self.path)
+        if follow_symlinks:
+            return self._fs.sys_stat(self.path)
+        return self._fs.sys_lstat(self.path)
 
     def inode(self):
         return 1
@@ -302,6 +347,8 @@ def _stat(p, *a, **k):
     fs, q = _route(p)
     if fs is None:
         return _real['stat'](p, *a, **k)
+    if k.get('follow_symlinks') is False:
+        return fs.sys_lstat(q)
     return fs.sys_stat(q)
 
 
@@ -309,7 +356,14 @@ def _lstat(p, *a, **k):
     fs, q = _route(p)
     if fs is None:
         return _real['lstat'](p, *a, **k)
-    return fs.sys_stat(q)
+    return fs.sys_lstat(q)
+
+
+def _readlink(p, *a, **k):
+    fs, q = _route(p)
+    if fs is None:
+        return _real['readlink'](p, *a, **k)
+    return fs.sys_readlink(q)
 
 
 def _listdir(p='.'):
@@ -353,6 +407,7 @@ def install():
     os.listdir = _listdir
     os.scandir = _scandir
     os.access = _access
+    os.readlink = _readlink
     builtins.open = _open
     io.open = _open
 
@@ -417,6 +472,14 @@ class RealFS:
             f.write(text)
         os.replace(tmp, p)
         self._utime(p)
+        self._utime(parent)
+
+    def symlink(self, p, target):
+        parent = os.path.dirname(p)
+        if not os.path.isdir(parent):
+            self.mkdir(parent)
+        os.symlink(target, p)
+        os.utime(p, (self.now, self.now), follow_symlinks=False)
         self._utime(parent)
 
     def touch(self, p):
